@@ -519,7 +519,7 @@ End Link.
 Theorem accepted_no_unbound_name cf fuel name data_id data cl bl first_id :
   check_registry (c_reg cf) = Accept ->
   registry_shaped (c_reg cf) = true ->
-  rr_unbound (render_x cf fuel name data_id data cl bl first_id) = 0%nat.
+  rr_unbound (render_xc cf fuel name data_id data cl bl first_id) = 0%nat.
 Proof.
   intros Hchk Hsh.
   apply check_registry_iff in Hchk; [|apply registry_shaped_loops_ok; exact Hsh].
@@ -528,7 +528,7 @@ Proof.
   { intros t0 Ht0. unfold wf_registry, wf_templates in Hchk. unfold registry_shaped in Hsh.
     rewrite forallb_forall in Hchk, Hsh. specialize (Hchk t0 Ht0). unfold wf_template, wf_template_node in Hchk.
     apply andb_true_iff in Hchk as [Hwf _]. split; [exact Hwf | auto]. }
-  unfold render_x. destruct (find_template (r_templates (c_reg cf)) name) as [t|] eqn:Hfind; [|reflexivity].
+  unfold render_xc. destruct (find_template (r_templates (c_reg cf)) name) as [t|] eqn:Hfind; [|reflexivity].
   set (st0 := init_state (sc_enter (new_scope data_id data)) (entry_mode (t_ns_autoescape t)) name cl bl first_id).
   destruct (walkx cf (map fst (t_params t)) fuel (t_node t) st0) as [r st] eqn:Hrun.
   assert (Hu : unbound st = 0%nat).
